@@ -22,6 +22,12 @@ func runC18median(r *Result, thorough bool, rng *rand.Rand) {
 	c := &Case{ID: "median"}
 	for i := 0; i < cases; i++ {
 		n := rng.Intn(12)
+		if i%5 == 0 {
+			n = rng.Intn(60) // networks with more validators than any test uses
+		} else if i%50 == 1 {
+			n = 100 + rng.Intn(200)
+		}
+		r.Inc(fmt.Sprintf("median_lists_longer_than_16_%v", n > 16), 1)
 		honestLo := rng.Int63n(1<<40) - (1 << 39)
 		if rng.Intn(4) == 0 {
 			honestLo = -honestLo
